@@ -2,6 +2,7 @@ package c19
 
 import (
 	"fmt"
+	"os"
 	"sort"
 	"strconv"
 	"strings"
@@ -43,7 +44,8 @@ import (
 //	    also with ONE long value in the first / middle / last route (size x count);
 //	(3) LONG COMMENT LINES AND LONG WHITE-SPACE RUNS (blank lines, blanks, tabs, CRLF, N
 //	    comment lines) at every token boundary - file header, before / after / inside every
-//	    block - of programs written in the same structural contexts.
+//	    block - of programs written in the same structural contexts;
+//	(4) GROWTH OF THE WHOLE TEXT under formatting across every total size (growth.go).
 //
 // Oracle: check() with the survival census switched on (census.go): formatted text
 // parses, compiles reflect.DeepEqual with equal validation result, fixed point, and no
@@ -293,9 +295,12 @@ type sizeTask struct {
 
 func (sp *sizePlan) tasks() []func(w *worker) {
 	var ts []sizeTask
-	ts = append(ts, sp.valueTasks()...)
-	ts = append(ts, sp.countTasks()...)
-	ts = append(ts, sp.layoutTasks()...)
+	if os.Getenv("C19_SIZE_ONLY") != "growth" { // debugging aid: only part (4)
+		ts = append(ts, sp.valueTasks()...)
+		ts = append(ts, sp.countTasks()...)
+		ts = append(ts, sp.layoutTasks()...)
+	}
+	ts = append(ts, sp.growthTasks()...)
 	sort.SliceStable(ts, func(i, j int) bool {
 		if ts[i].prio != ts[j].prio {
 			return ts[i].prio < ts[j].prio
@@ -317,18 +322,20 @@ func (sp *sizePlan) tasks() []func(w *worker) {
 
 // priorities: the order in which a wall budget cuts the family (cheap and wide first)
 const (
-	prioQuick64K = iota
+	prioQuickGrowth = iota // few tasks, each a sequential chain: started first so that a loaded machine does not cut them (growth.go)
+	prioQuick64K
 	prioQuickCount
 	prioQuickLayout
 	prioQuickMiB
 	prioThoroughSmall
+	prioThoroughGrowth
 	prioThoroughCount
 	prioThoroughLayout
 	prioThorough64K
 	prioThoroughMiB
 )
 
-var prioNames = []string{"quick_64k", "quick_count", "quick_layout", "quick_1mib", "thorough_small", "thorough_count", "thorough_layout", "thorough_64k", "thorough_1mib"}
+var prioNames = []string{"quick_growth", "quick_64k", "quick_count", "quick_layout", "quick_1mib", "thorough_small", "thorough_growth", "thorough_count", "thorough_layout", "thorough_64k", "thorough_1mib"}
 
 // ---- (1) long values ----------------------------------------------------------------------------
 
